@@ -3,10 +3,11 @@
    Model.Includes.run_project, prints the result as one JSON line in the form
    lib/props/C19.py `normalise` gives to the implementation's result.
 
-   line:  argv \t libs \t canon \t dirs \t contents        ("-" = empty list)
+   line:  argv \t libs \t canon \t dirs \t files \t contents        ("-" = empty list)
      argv, libs : p;p;...
      canon      : spelling,canonical|-;...
      dirs       : spelling,name,name,...;...
+     files      : canonical paths that are regular files, p;p;...
      contents   : path,U | path,E | path,P,inc@start@end,...;...
    mode "run": current code; mode "run-d23": the code before the C19-D23 repair. *)
 open Datatypes
@@ -30,7 +31,7 @@ let split c s = if s = "-" || s = "" then [] else Stdlib.String.split_on_char c 
 
 let parse_line line =
   match Stdlib.String.split_on_char '\t' line with
-  | [argv; libs; canon; dirs; contents] ->
+  | [argv; libs; canon; dirs; files; contents] ->
     let canon = Stdlib.List.map (fun e ->
         match Stdlib.String.split_on_char ',' e with
         | [k; "-"] -> (cstring k, None)
@@ -50,7 +51,7 @@ let parse_line line =
                | [p; s; e] -> ((cstring p, nat_of_int (int_of_string s)), nat_of_int (int_of_string e))
                | _ -> failwith "include") incs))
         | _ -> failwith "contents") (split ';' contents) in
-    ({ Includes.fs_canon = canon; fs_dirs = dirs; fs_content = contents },
+    ({ Includes.fs_canon = canon; fs_dirs = dirs; fs_files = Stdlib.List.map cstring (split ';' files); fs_content = contents },
      Stdlib.List.map cstring (split ';' argv), Stdlib.List.map cstring (split ';' libs))
   | _ -> failwith "fields"
 
